@@ -490,7 +490,8 @@ def rand_sexp(rng, depth=0, real=False):
         return ["instance", cs] + ([rand_sexp(rng, depth + 1, real)] if rng.random() < 0.9 else [])
     if k < 0.82:
         return ["method", {"s": rng.choice(["meth", "nosuch", "__setstate__"])}, rand_sexp(rng, depth + 1, real),
-                rng.choice([["class", A(name())], ["function", A(name())]])]
+                rng.choice([["class", A(name())], ["function", A(name())], ["None"], {"i": 1}, ["list"],
+                            ["function", A(rng.choice(["ljpkg.mod.func", "ljpkg.sub.f", "ljforeign.danger"]))]])]
     if k < 0.85:
         return [rng.choice(["persistent", "unpersistable"])] + ([A("x")] if rng.random() < 0.8 else [])
     if k < 0.87:
@@ -541,6 +542,12 @@ def corpus():
         {"policy": P(["function"], ["ljpkg.mod"], []), "sexp": ["function", A("ljpkg.mod.Other")]},
         {"policy": P(["function", "method"], ["ljpkg.mod"], ["ljpkg.mod.Allowed"]),
          "sexp": ["method", {"s": "meth"}, ["None"], ["function", A("ljpkg.mod.Other")]]},
+        {"policy": P(["function", "method"], ["ljpkg.mod"], ["ljpkg.mod.Allowed"]),
+         "sexp": ["method", {"s": "meth"}, ["None"], ["function", A("ljpkg.mod.func")]]},
+        {"policy": P(["method", "class"], ["ljpkg.mod"], ["ljpkg.mod.Allowed"]),
+         "sexp": ["method", {"s": "meth"}, ["None"], ["None"]]},
+        {"policy": P(["method", "class"], ["ljpkg.mod"], ["ljpkg.mod.Allowed"]),
+         "sexp": ["method", {"s": "meth"}, {"i": 1}, ["class", A("ljpkg.mod.Allowed")]]},
         {"policy": P(["instance", "class", "list"], ["ljpkg.mod"], ["ljpkg.mod.Allowed"]),
          "sexp": ["instance", ["class", A("ljpkg.mod.Allowed")], ["list"]]},
         {"policy": P(["list"], ["ljpkg.mod"], ["ljpkg.mod.Allowed"]), "sexp": ["ljpkg.mod.Other", ["list"]]},
